@@ -1,6 +1,7 @@
 """Collects confirmed seeded changes from /tmp/wt-out/<P>/<m>/ into /verif/seeded/<P>-<m>/ (patch.diff, demo.py, notes.md, meta.json)."""
 import json, os, re, shutil, sys
-out_root = "/tmp/wt-out"
+out_root = os.environ.get("SEED_ROOT", "/tmp/wt-out")
+suffix = os.environ.get("SEED_SUFFIX", "")
 rows = []
 for P in sorted(x for x in os.listdir(out_root) if os.path.isdir(os.path.join(out_root, x))):
     for M in sorted(x for x in os.listdir(os.path.join(out_root, P)) if os.path.isdir(os.path.join(out_root, P, x))):
@@ -18,7 +19,7 @@ for P in sorted(x for x in os.listdir(out_root) if os.path.isdir(os.path.join(ou
         suite_ok = ("267 passed" in pytest_line and fails == known) if fails is not None else pytest_line.startswith("FAILED test/test_generators.py::test_generators_return_no_annotations[False-beartype]")
         caught = [c for c, rc, n, first in checks if rc == "1"]
         undecided = [c for c, rc, n, first in checks if rc == "2"]
-        dst = f"/verif/seeded/{P}-{M}"
+        dst = f"/verif/seeded/{P}-{M}{suffix}"
         if confirmed:
             os.makedirs(dst, exist_ok=True)
             for f in ("patch.diff", "demo.py", "notes.md"):
@@ -26,7 +27,7 @@ for P in sorted(x for x in os.listdir(out_root) if os.path.isdir(os.path.join(ou
                     shutil.copy(os.path.join(d, f), os.path.join(dst, f))
             notes = open(os.path.join(d, "notes.md")).read() if os.path.exists(os.path.join(d, "notes.md")) else ""
             meta = {
-                "property": P, "id": f"{P}-{M}",
+                "property": P, "id": f"{P}-{M}{suffix}",
                 "breaks": "see notes.md (written by an independent sub-agent that saw only the property text and a scratch worktree)",
                 "needs_to_manifest": (re.search(r"(?is)(needs?|trigger|manifest)[^\n]*\n(.{0,600})", notes) or [None, None, ""])[2].strip()[:600] if notes else "",
                 "confirmed_by_me": {"demo_on_unchanged_tree_rc": int(kv["demo_clean_rc"]), "demo_with_change_rc": int(kv["demo_mut_rc"]), "existing_suite_with_change": pytest_line,
